@@ -271,7 +271,7 @@ func checkR02c(p *Prog, r *Report) {
 				hit := false
 				touched := false
 				for _, fc := range pt.Facts {
-					cond := resolveOnPath(pt, fc.Cond)
+					cond := resolveOnPathAt(pt, fc.Cond, fc.At, false)
 					val := fc.Val
 					// comparisons field == const
 					if bo, ok := cond.(*ssa.BinOp); ok && (bo.Op == token.EQL || bo.Op == token.NEQ) {
